@@ -81,6 +81,7 @@ type Cluster struct {
 	doneCh  chan struct{}
 	readyCh chan struct{}
 	readyB  bool
+	readyMu sync.Mutex // guards readyB (shutdownLock is held for the whole Shutdown)
 	wg      sync.WaitGroup
 
 	// peerAdd
@@ -659,10 +660,16 @@ This might be due to one or several causes:
 	}
 
 	close(c.readyCh)
-	c.shutdownLock.Lock()
+	c.readyMu.Lock()
 	c.readyB = true
-	c.shutdownLock.Unlock()
+	c.readyMu.Unlock()
 	logger.Info("** IPFS Cluster is READY **")
+}
+
+func (c *Cluster) isReady() bool {
+	c.readyMu.Lock()
+	defer c.readyMu.Unlock()
+	return c.readyB
 }
 
 // Ready returns a channel which signals when this peer is
@@ -703,7 +710,7 @@ func (c *Cluster) Shutdown(ctx context.Context) error {
 
 	// Try to store peerset file for all known peers whatsoever
 	// if we got ready (otherwise, don't overwrite anything)
-	if c.readyB {
+	if c.isReady() {
 		// Ignoring error since it's a best-effort
 		c.peerManager.SavePeerstoreForPeers(c.host.Peerstore().Peers())
 	}
@@ -712,7 +719,7 @@ func (c *Cluster) Shutdown(ctx context.Context) error {
 	// - consensus is initialized
 	// - cluster was ready (no bootstrapping error)
 	// - We are not removed already (means watchPeers() called us)
-	if c.consensus != nil && c.config.LeaveOnShutdown && c.readyB && !c.removed {
+	if c.consensus != nil && c.config.LeaveOnShutdown && c.isReady() && !c.removed {
 		c.removed = true
 		_, err := c.consensus.Peers(ctx)
 		if err == nil {
@@ -734,7 +741,7 @@ func (c *Cluster) Shutdown(ctx context.Context) error {
 
 	// We left the cluster or were removed. Remove any consensus-specific
 	// state.
-	if c.removed && c.readyB {
+	if c.removed && c.isReady() {
 		err := c.consensus.Clean(ctx)
 		if err != nil {
 			logger.Error("cleaning consensus: ", err)
